@@ -1,5 +1,7 @@
 import Casket.Model.VHost
 import Casket.Spec.VHost
+import Casket.Model.VHostStack
+import Casket.Spec.VHostStack
 import Driver.Proto
 /-
 Streams of C01.
@@ -69,7 +71,61 @@ def matchModel : List String → String
     | _, _ => "bad-case"
   | _ => "bad-case"
 
+/-
+  c01.stack  addrs  port  hosthex  pathhex  protoMajor
+     addrs = comma list of hex site addresses, each its own server block of a Casketfile, in order
+     out   = load:<url|convention|dupkey|dupaddr|outofmodel> | nolistener
+           | site TAB <position> TAB <path_prefix hex> | notfound TAB <status>
+-/
+def bytes8 (s : String) : Option (List UInt8) := Driver.unhex s
+
+def parseAddrs (s : String) : Option (List (List UInt8)) :=
+  if s = "" then some [] else (s.splitOn ",").mapM bytes8
+
+def showErr : Casket.AutoHTTPS.AddrErr → String
+  | .url => "load:url"
+  | .convention => "load:convention"
+  | .dupKey => "load:dupkey"
+  | .dupAddr => "load:dupaddr"
+  | .outOfModel => "load:outofmodel"
+
+open Casket.VHostStack in
+def showStack : StackOutcome → String
+  | .loadError e => showErr e
+  | .noListener => "nolistener"
+  | .site i p => s!"site\t{i}\t{hexB p}"
+  | .notFound st => s!"notfound\t{st}"
+
+open Casket.VHostStack in
+def parseStack (s : String) : Option StackOutcome :=
+  match s.splitOn "\t" with
+  | ["load:url"] => some (.loadError .url)
+  | ["load:convention"] => some (.loadError .convention)
+  | ["load:dupkey"] => some (.loadError .dupKey)
+  | ["load:dupaddr"] => some (.loadError .dupAddr)
+  | ["load:outofmodel"] => some (.loadError .outOfModel)
+  | ["nolistener"] => some .noListener
+  | ["site", i, p] => do pure (.site (← i.toNat?) (← bytes p))
+  | ["notfound", st] => do pure (.notFound (← st.toNat?))
+  | _ => none
+
+def parseStackCase : List String → Option (List (List UInt8) × List UInt8 × Req)
+  | [as, port, h, p, pm] => do
+    pure (← parseAddrs as, port.toUTF8.toList, { host := ← bytes h, path := ← bytes p, protoMajor := ← pm.toNat? })
+  | _ => none
+
+def stackModel (f : List String) : String :=
+  match parseStackCase f with
+  | none => "bad-case"
+  | some (as, port, r) => showStack (Casket.VHostStack.stackRoute as port r)
+
+def stackJudge (f : List String) (out : String) : String :=
+  match parseStackCase f, parseStack out with
+  | some (as, port, r), some o => Casket.VHostStackSpec.verdict as port r o
+  | _, _ => "bad:unparsable:" ++ out
+
 def streams : List Driver.Stream := [
+  { name := "c01.stack", model := stackModel, judge := stackJudge },
   { name := "c01.route", model := routeModel, judge := routeJudge },
   { name := "c01.hostport", model := hostportModel, judge := fun _ _ => "ok" },
   { name := "c01.match", model := matchModel, judge := fun _ _ => "ok" }
